@@ -793,11 +793,63 @@ fn main() {
         rep.finish(0);
     }
     let n: usize = args.extra.get("n").and_then(|s| s.parse().ok()).unwrap_or(args.tier.pick(480, 9000));
+    let from: usize = args.extra.get("from").and_then(|s| s.parse().ok()).unwrap_or(0);
     let (seed, tier) = (args.seed, args.tier);
-    let results = run_cases(n, args.threads, |i| {
+    let mut results = run_cases(n, args.threads, |i| {
+        let i = i + from;
         let name = NPO_CONFIGS[i % NPO_CONFIGS.len()];
         with_cfg!(name, case, seed, i, tier)
     });
+    // Sanitizer layer (thorough tier, or `--memcheck <shards>`): the same workload — key generation,
+    // Poseidon trace generation (MaybeUninit rows, `assume_init`), column-struct transmutes of the
+    // ALU / recompose AIRs, `transmute_traces`, proving and verifying honest and forged traces — is
+    // replayed by this release binary under valgrind memcheck in single-threaded shards. A memcheck
+    // report (invalid read / write, use of an uninitialised value) fails the check.
+    let shards: usize = args.extra.get("memcheck").and_then(|s| s.parse().ok()).unwrap_or(if args.extra.contains_key("memcheck-child") { 0 } else { args.tier.pick(0, 16) });
+    if shards > 0 {
+        let exe = std::env::current_exe().unwrap();
+        let outs: Vec<(usize, Result<std::process::Output, String>)> = std::thread::scope(|sc| {
+            let hs: Vec<_> = (0..shards)
+                .map(|k| {
+                    let exe = exe.clone();
+                    sc.spawn(move || {
+                        let r = std::process::Command::new("valgrind")
+                            .args(["-q", "--error-exitcode=97"])
+                            .arg(&exe)
+                            .args(["--memcheck-child", "1", "--tier", "quick", "--seed", &seed.to_string(), "--n", "2", "--threads", "1", "--from", &(1_000_000 + 2 * k).to_string()])
+                            .output()
+                            .map_err(|e| format!("spawn valgrind: {e}"));
+                        (k, r)
+                    })
+                })
+                .collect();
+            hs.into_iter().map(|h| h.join().unwrap()).collect()
+        });
+        for (k, r) in outs {
+            let key = format!("C04:npo:memcheck:shard{k}");
+            match r {
+                Ok(o) if o.status.success() => {
+                    let out = String::from_utf8_lossy(&o.stdout);
+                    let evals = out.lines().find(|l| l.starts_with("[C04NPO]")).unwrap_or("").to_string();
+                    results.push(CaseResult::held(key, true).count("npo/memcheck-shards-clean", 1).with_sample(json!({"memcheck_shard": k, "child": evals})));
+                }
+                Ok(o) if o.status.code() == Some(97) => {
+                    let err = String::from_utf8_lossy(&o.stderr);
+                    let first: Vec<&str> = err.lines().filter(|l| l.starts_with("==")).take(30).collect();
+                    let site = err.lines().find(|l| l.contains("p3_circuit") || l.contains("p3_recursion") || l.contains("poseidon")).unwrap_or("").trim().to_string();
+                    results.push(CaseResult::violated(key, "sanitizer/memcheck-error/npo-prove-path", json!({"stream": "npo", "shard": k, "first_in_repo_frame": site, "report": first})));
+                }
+                Ok(o) => results.push(CaseResult::inconclusive(key, format!("valgrind child exited with {:?}", o.status.code()))),
+                Err(e) => results.push(CaseResult::inconclusive(key, e)),
+            }
+        }
+    }
+    if args.extra.contains_key("memcheck-child") {
+        // only the sanitizer's verdict (its exit code 97) matters for this run
+        let held = results.iter().filter(|r| matches!(r.verdict, Verdict::Held)).count();
+        println!("[C04NPO] memcheck child: cases={} held={held}", results.len());
+        std::process::exit(0);
+    }
     if emit.is_some() {
         use std::io::Write;
         let out = std::io::stdout();
